@@ -1,7 +1,7 @@
 """C19 — segmented fetch (DESIGN §4 C19)."""
 import ast
 
-from .common import ctx, returns, calls_in_ctx, reach_from_succ, site, srcs_text
+from .common import ctx, returns, calls_in_ctx, reach_from_succ, site, srcs_text, bound_args
 from ..flow import callee_attr
 from ..loader import AnalysisError, norm
 
@@ -124,7 +124,7 @@ def _rest(R, P, g, rt, exprs):
     SFq = SF
     # express parameters: same name variable, caller's validator / lifetime
     (en, ec) = exprs[0]
-    kw = {k.arg: ast.unparse(k.value) for k in ec.keywords}
+    kw = {k_: ast.unparse(v_) for k_, v_ in bound_args(P, rt, ec).items()}
     inst = f'{rt.qual} :: Interest parameters'
     want = {'validator': 'validator', 'lifetime': 'timeout', 'must_be_fresh': 'must_be_fresh'}
     bad = {k: kw.get(k) for k, v in want.items() if kw.get(k) != v}
